@@ -157,14 +157,37 @@ R11.4 config templates and mock templates are both created with Funcs(template_f
 	// the config file in use is recorded before Initialize
 	if nr := FuncDecl(cp, "NewRootConfig"); nr != nil {
 		storePos, initPos := token.NoPos, token.NoPos
+		// the path handed to the file provider: file.Provider(<P>.String())
+		var pathObj types.Object
+		ast.Inspect(nr.Body, func(n ast.Node) bool {
+			if call, ok := n.(*ast.CallExpr); ok && strings.HasSuffix(calleeName(info, call), "providers/file.Provider") && len(call.Args) == 1 {
+				if root, _ := selChainCalls(call.Args[0]); root != nil {
+					pathObj = info.Uses[root]
+				}
+			}
+			return true
+		})
 		ast.Inspect(nr.Body, func(n ast.Node) bool {
 			switch x := n.(type) {
 			case *ast.AssignStmt:
-				if len(x.Lhs) == 1 && types.ExprString(x.Lhs[0]) == "rootConfig.ConfigFile" && strings.Contains(types.ExprString(x.Rhs[0]), "configFile.String()") {
-					storePos = x.Pos()
+				if len(x.Lhs) == 1 && len(x.Rhs) == 1 {
+					if se, ok := x.Lhs[0].(*ast.SelectorExpr); ok && se.Sel.Name == "ConfigFile" && typeIs(info.TypeOf(se.X), "config.RootConfig") {
+						usesPath := false
+						ast.Inspect(x.Rhs[0], func(m ast.Node) bool {
+							if call, ok := m.(*ast.CallExpr); ok && strings.HasSuffix(calleeName(info, call), "pathlib.Path).String") {
+								if root, _ := selChainCalls(call.Fun); root != nil && pathObj != nil && info.Uses[root] == pathObj {
+									usesPath = true
+								}
+							}
+							return true
+						})
+						if usesPath {
+							storePos = x.Pos()
+						}
+					}
 				}
 			case *ast.CallExpr:
-				if types.ExprString(x.Fun) == "rootConfig.Initialize" {
+				if calleeName(info, x) == "("+modPath+"/config.RootConfig).Initialize" {
 					initPos = x.Pos()
 				}
 			}
